@@ -2,6 +2,8 @@
   C14 — Failed transfers in the distributor lose nothing and are made up later.
 -/
 import C4E.Distr1
+import C4E.Distributor
+import C4E.Lemmas.AListLemmas
 namespace C4E.Props.C14
 open C4E C4E.Distr1
 
@@ -169,5 +171,151 @@ theorem delayed_sweep_bound (x y s : Int) (hx : 0 ≤ x) (hy : 0 ≤ y) (_hs : 0
       omega
     have := Int.lt_of_mul_lt_mul_right h (Int.le_of_lt hp)
     omega
+
+/-! ### the payout step of the code-tied multi-denomination model -/
+
+section FaithfulPayout
+open C4E.Distr C4E.CoinList
+
+/-- `TruncateDecimal` splits every amount exactly: integer part × 10^18 + fraction = amount -/
+theorem truncateDecimal_split (l : DecCoins) (d : String) :
+    amountOf (truncateDecimal l).1 d * P + amountOf (truncateDecimal l).2 d = amountOf l d := by
+  unfold truncateDecimal
+  have gen : ∀ (l : DecCoins) (acc : Coins × DecCoins),
+      amountOf (l.foldl (fun (acc : Coins × DecCoins) kv =>
+        (if Dec.truncInt kv.2 != 0 then CoinList.add acc.1 [(kv.1, Dec.truncInt kv.2)] else acc.1,
+         if kv.2 - Dec.ofInt (Dec.truncInt kv.2) != 0 then CoinList.add acc.2 [(kv.1, kv.2 - Dec.ofInt (Dec.truncInt kv.2))] else acc.2)) acc).1 d * P
+      + amountOf (l.foldl (fun (acc : Coins × DecCoins) kv =>
+        (if Dec.truncInt kv.2 != 0 then CoinList.add acc.1 [(kv.1, Dec.truncInt kv.2)] else acc.1,
+         if kv.2 - Dec.ofInt (Dec.truncInt kv.2) != 0 then CoinList.add acc.2 [(kv.1, kv.2 - Dec.ofInt (Dec.truncInt kv.2))] else acc.2)) acc).2 d
+      = amountOf acc.1 d * P + amountOf acc.2 d + amountOf l d := by
+    intro l
+    induction l with
+    | nil => intro acc; simp [amountOf]
+    | cons kv rest ih =>
+      intro acc
+      obtain ⟨k, v⟩ := kv
+      rw [List.foldl_cons, ih]
+      simp only [amountOf]
+      have e1 : amountOf (if Dec.truncInt v != 0 then CoinList.add acc.1 [(k, Dec.truncInt v)] else acc.1) d
+          = amountOf acc.1 d + (if k = d then Dec.truncInt v else 0) := by
+        by_cases hz : Dec.truncInt v = 0
+        · simp [hz]
+        · have : (Dec.truncInt v != 0) = true := by simpa using hz
+          simp only [this, if_true, amountOf_add, amountOf]; omega
+      have e2 : amountOf (if v - Dec.ofInt (Dec.truncInt v) != 0 then CoinList.add acc.2 [(k, v - Dec.ofInt (Dec.truncInt v))] else acc.2) d
+          = amountOf acc.2 d + (if k = d then v - Dec.ofInt (Dec.truncInt v) else 0) := by
+        by_cases hz : v - Dec.ofInt (Dec.truncInt v) = 0
+        · simp [hz]
+        · have : (v - Dec.ofInt (Dec.truncInt v) != 0) = true := by simpa using hz
+          simp only [this, if_true, amountOf_add, amountOf]; omega
+      rw [e1, e2]
+      by_cases hk : k = d
+      · simp only [hk, if_true]
+        unfold Dec.ofInt
+        rw [Int.add_mul]; omega
+      · simp only [hk, if_false, Int.add_zero]; omega
+  have := gen l ([], [])
+  simp only [amountOf, Int.zero_mul, Int.zero_add] at this
+  simp only []
+  exact this
+
+theorem bank_send_src (b b' : Bank) (src dst : String) (c : Coins) (d : String) (hne : src ≠ dst)
+    (h : b.send src dst c = some b') : amountOf (b'.balance src) d = amountOf (b.balance src) d - amountOf c d := by
+  unfold Bank.send at h
+  simp only [] at h
+  split at h
+  · cases h
+  · cases h
+    unfold Bank.balance
+    simp only []
+    rw [AList.get?_set_other _ _ _ _ hne, AList.get?_set_self]
+    simp only [Option.getD_some]
+    rw [amountOf_add, amountOf_neg]; omega
+
+theorem bank_burn_src (b b' : Bank) (src : String) (c : Coins) (d : String)
+    (h : b.burn src c = some b') : amountOf (b'.balance src) d = amountOf (b.balance src) d - amountOf c d := by
+  unfold Bank.burn at h
+  simp only [] at h
+  split at h
+  · cases h
+  · cases h
+    unfold Bank.balance
+    simp only []
+    rw [AList.get?_set_self]
+    simp only [Option.getD_some]
+    rw [amountOf_add, amountOf_neg]; omega
+
+/-- where a state's payout goes -/
+def destAddr (e : Env) (a : Account) : Option String := if a.type = tModule then e.modAddr? a.id else some a.id
+
+/-- **one payout of the code-tied model, whatever happens to it** (paid, injected fault, bank
+    error, blocked or malformed destination): `main balance × 10^18 − recorded remains of that
+    state` is unchanged in every denomination — a failed payout keeps the whole amount recorded, a
+    successful one takes from the main account exactly the integer part that leaves the record.
+    Hypothesis: the destination is not the main account itself (rejected by validation, D21). -/
+theorem payoutOne_keeps_books (e : Env) (w w' : Distr.World) (s s' : DState) (d : String)
+    (h : payoutOne e w s = .ok (s', w'))
+    (hne : ∀ a, s.account = some a → s.burn = false → destAddr e a ≠ some e.mainAddr) :
+    amountOf (w'.bank.balance e.mainAddr) d * P - amountOf s'.remains d
+      = amountOf (w.bank.balance e.mainAddr) d * P - amountOf s.remains d := by
+  have hsplit := truncateDecimal_split s.remains d
+  unfold payoutOne at h
+  split at h
+  · cases h
+  · rename_i a ha
+    split at h
+    · simp only [] at h
+      split at h
+      · -- burn
+        split at h
+        · cases h; rfl
+        · split at h
+          · cases h
+          · split at h
+            · cases h; rfl
+            · rename_i b hb
+              cases h
+              have := bank_burn_src _ b _ _ d hb
+              show amountOf (b.balance e.mainAddr) d * P - amountOf (truncateDecimal s.remains).2 d = _
+              rw [this, Int.sub_mul]; omega
+      · rename_i hnb
+        have hnb' : s.burn = false := by simpa using hnb
+        have hd := hne a ha hnb'
+        split at h
+        · rename_i hmod
+          split at h
+          · cases h; rfl
+          · split at h
+            · cases h
+            · rename_i addr haddr
+              split at h
+              · cases h; rfl
+              · rename_i b hb
+                cases h
+                have hne2 : e.mainAddr ≠ addr := by
+                  intro hh; apply hd; unfold destAddr; simp [hmod, haddr, hh]
+                have := bank_send_src _ b _ _ _ d hne2 hb
+                show amountOf (b.balance e.mainAddr) d * P - amountOf (truncateDecimal s.remains).2 d = _
+                rw [this, Int.sub_mul]; omega
+        · rename_i hmod
+          split at h
+          · cases h; rfl
+          · split at h
+            · cases h; rfl
+            · split at h
+              · cases h; rfl
+              · split at h
+                · cases h; rfl
+                · rename_i b hb
+                  cases h
+                  have hne2 : e.mainAddr ≠ a.id := by
+                    intro hh; apply hd; unfold destAddr; simp [hmod, hh]
+                  have := bank_send_src _ b _ _ _ d hne2 hb
+                  show amountOf (b.balance e.mainAddr) d * P - amountOf (truncateDecimal s.remains).2 d = _
+                  rw [this, Int.sub_mul]; omega
+    · cases h; rfl
+
+end FaithfulPayout
 
 end C4E.Props.C14
